@@ -272,6 +272,49 @@ Definition plain_opb (o:op) : bool :=
   | _ => false
   end.
 
+Definition qstate := (conf * list evt)%type.
+Definition sp_qop (pol:nat) (mc:machine) (o:op) (st:qstate) : list titem * option (bool * bool) * qstate :=
+  let '(c, pend) := st in
+  match o with
+  | OStart val _ => let '(i0, c0) := sp_start mc c in
+                    let '(i, c') := sp_drain pol mc val pend c0 in (rev (i ++ i0), None, (c', []))
+  | OStop _ => let '(i, c') := sp_stop mc c in (rev i, None, (c', pend))
+  | OProcess e val _ => let o := sp_process pol mc e val c in
+                        let '(i, c') := sp_drain pol mc val pend (o_conf o) in
+                        (rev (i ++ o_items o), Some (o_taken o, o_rejected o), (c', []))
+  | OEnqueue e => ([], None, (c, pend ++ [e]))
+  | ODrain val _ => let '(i, c') := sp_drain pol mc val pend c in (rev i, None, (c', []))
+  | _ => ([], None, st)
+  end.
+Fixpoint sp_qrun (pol:nat) (mc:machine) (st:qstate) (l:list op) : list (list titem * option (bool * bool) * list (list nat * list nat)) :=
+  match l with
+  | [] => []
+  | o :: t => let '(items, out, st') := sp_qop pol mc o st in (items, out, sp_snapshot mc (fst st') []) :: sp_qrun pol mc st' t
+  end.
+
+Definition qplain_op (o:op) : Prop :=
+  match o with
+  | OStart _ [] => True
+  | OStop [] => True
+  | OProcess e _ [] => e_ty e <> EV_NONE
+  | OEnqueue e => e_ty e <> EV_NONE
+  | ODrain _ [] => True
+  | _ => False
+  end.
+Fixpoint count_enq (l:list op) : nat :=
+  match l with [] => 0 | OEnqueue _ :: t => S (count_enq t) | _ :: t => count_enq t end.
+
+Definition qplain_opb (o:op) : bool :=
+  match o with
+  | OStart _ [] => true
+  | OStop [] => true
+  | OProcess e _ [] => negb (Nat.eqb (e_ty e) EV_NONE)
+  | OEnqueue e => negb (Nat.eqb (e_ty e) EV_NONE)
+  | ODrain _ [] => true
+  | _ => false
+  end.
+Definition spec_qtrace (pol:nat) (mc:machine) (l:list op) := sp_qrun pol mc (abs (init_rnode mc), []) l.
+
 (* the specification's trace of a history on a fresh object *)
 Definition spec_trace (stale:bool) (pol:nat) (mc:machine) (l:list op) :=
   sp_run stale pol mc (abs (init_rnode mc)) l.
